@@ -89,7 +89,11 @@ def load_known() -> Dict[str, Any]:
 
 def finish(ctx: Ctx, started: float, explanation: str, rule_text: str, assumptions: List[str], exhaustive: bool = True) -> int:
     """Write evidence, print verdict lines, return the exit code."""
-    os.makedirs(EVIDENCE_DIR, exist_ok=True)
+    # evidence under /verif/evidence is only ever written for /repo itself; runs against scratch
+    # copies (pinned-tree cross-checks, seeded variants) go to a throw-away directory
+    evidence_dir = EVIDENCE_DIR if ctx.repo.root == "/repo" else os.environ.get("SA_EVIDENCE_DIR", "/tmp/sa-evidence" + ctx.repo.root.replace("/", "_"))
+    replay_dir = os.path.join(evidence_dir, "replay")
+    os.makedirs(evidence_dir, exist_ok=True)
     known = load_known()
     known_keys = {
         (k["property"], k["key"]): k for k in known.get("known", [])
@@ -117,9 +121,9 @@ def finish(ctx: Ctx, started: float, explanation: str, rule_text: str, assumptio
     # replay files for new violations
     replay_paths = []
     if new_violations:
-        os.makedirs(REPLAY_DIR, exist_ok=True)
+        os.makedirs(replay_dir, exist_ok=True)
     for i, o in enumerate(new_violations):
-        path = os.path.join(REPLAY_DIR, f"{ctx.prop}-{i}.json")
+        path = os.path.join(replay_dir, f"{ctx.prop}-{i}.json")
         with open(path, "w") as f:
             json.dump(
                 {
@@ -177,14 +181,14 @@ def finish(ctx: Ctx, started: float, explanation: str, rule_text: str, assumptio
             "informational": [asdict(o) for o in ctx.obligations if o.status == INFO][:60],
             "externals_assumed_pure": sorted(ctx.externals)[:200],
             "known_findings_hit": [o.key for o in known_hits],
-            "notes": ctx.notes,
+            "notes": sorted(set(ctx.notes)),
             **ctx.extra,
         },
         "assumptions": assumptions,
         "wall_s": round(time.time() - started, 3),
         "violations": len(new_violations),
     }
-    with open(os.path.join(EVIDENCE_DIR, f"{ctx.prop}.json"), "w") as f:
+    with open(os.path.join(evidence_dir, f"{ctx.prop}.json"), "w") as f:
         json.dump(evidence, f, indent=1, default=str)
 
     # ---- console
